@@ -326,6 +326,8 @@ def replay(name, ob, model, uni):
     rp = R.run()
     if not rp.get("confirmed"):
         rp = R.special_kernels()
+    if not rp.get("confirmed"):
+        rp = R.fused_loop()
     return rp
 
 
